@@ -138,7 +138,7 @@ func classifyAddr(a ssa.Value) Write {
 				// stored there: follow the reaching definition(s) instead of the local.
 				// (A by-value struct parameter is spilled into a local; the maps and
 				// pointers inside it are the caller's shared objects.)
-				if root, _ := addrPath(x.X); root != nil {
+				if root, _ := addrPath(x.X); root != nil && !viaFreeVar(x.X) {
 					if _, isAlloc := root.(*ssa.Alloc); isAlloc {
 						svs := storedValues(x.X)
 						if len(svs) == 1 {
@@ -241,6 +241,25 @@ func classifyAddr(a ssa.Value) Write {
 		w.Class = RootOther
 	}
 	return w
+}
+
+// viaFreeVar: the address is reached through a captured variable. What a
+// closure finds in a captured variable is shared with its creator and with
+// every other invocation, however fresh it was when the creator allocated it.
+func viaFreeVar(a ssa.Value) bool {
+	for depth := 0; depth < 32; depth++ {
+		switch x := a.(type) {
+		case *ssa.FieldAddr:
+			a = x.X
+		case *ssa.IndexAddr:
+			a = x.X
+		case *ssa.FreeVar:
+			return true
+		default:
+			return false
+		}
+	}
+	return false
 }
 
 // isFreshValue: an allocation made by the current activation.
